@@ -621,6 +621,35 @@ def run(fx, ck, OP):
                        "`%s` releases its registers in the order it allocated them: the next statement is handed the highest of them, not register 0, and the "
                        "program's value is whatever register 0 still holds - `for (let i = 0, j = 10; i < 3; i++) {} 5` completes with 2" % p27)
     ck.anchor(n27 >= 5, "release loops of the compiler (decorator registers, loop-variable registers)")
+    # ---- R28 for-in / for-of: one scope per iteration
+    ck.rule("R28.iteration-scope-per-step", "a compiler of for-in / for-of (it emits Op::IteratorNext and binds the loop variable with compile_for_in_of_left) pushes a scope "
+            "between the iterator step and the binding, and pops one between the body and the back jump: each iteration's closures keep their own binding", floor=2)
+    n28 = 0
+    for p28, f28 in sorted(fx.fns.items()):
+        if f28.derived or f28.closure or not comp(f28):
+            continue
+        cs28 = list(f28.calls())
+        binds28 = [bi for bi, t in cs28 if (t[1].get("d") or "").endswith("::compile_for_in_of_left")]
+        nexts28 = [b for b, _ in op_aggs(f28, OP, "IteratorNext")]
+        if not binds28 or not nexts28:
+            continue
+        n28 += 1
+        pushes28 = [bi for bi, t in cs28 if (t[1].get("d") or "").endswith("::emit_push_scope")]
+        pops28 = [bi for bi, t in cs28 if (t[1].get("d") or "").endswith("::emit_pop_scope")]
+        bodies28 = [bi for bi, t in cs28 if (t[1].get("d") or "").endswith("::compile_statement_impl")]
+        backs28 = [bi for bi, t in cs28 if (t[1].get("d") or "").endswith("::emit_jump_to")]
+        ok_push = all(any(f28.dominates(n_, p_) and f28.dominates(p_, b_) for n_ in nexts28 for p_ in pushes28) for b_ in binds28)
+        ok_pop = bool(bodies28) and bool(backs28) and all(any(f28.dominates(bd, q_) and f28.dominates(q_, bk) for bd in bodies28 for q_ in pops28) for bk in backs28)
+        ck.instance("R28.iteration-scope-per-step", "%s: scope pushed per iteration" % p28, F.short_span(f28.span), ok=ok_push)
+        ck.instance("R28.iteration-scope-per-step", "%s: scope popped before the back jump" % p28, F.short_span(f28.span), ok=ok_pop or not ok_push)
+        if not ok_push:
+            ck.finding("R28.iteration-scope-per-step", "R28.iteration-scope-per-step/%s/push" % p28, F.short_span(f28.span),
+                       "`%s` binds the loop variable of every iteration in one scope: the closures of all iterations share the last binding - "
+                       "`for (const x of [1,2,3]) fs.push(() => x)` gives 3,3,3 (1,2,3)" % p28)
+        elif not ok_pop:
+            ck.finding("R28.iteration-scope-per-step", "R28.iteration-scope-per-step/%s/pop" % p28, F.short_span(f28.span),
+                       "`%s` pushes a scope for each iteration and does not pop it before the back jump: the scope chain grows with every iteration" % p28)
+    ck.anchor(n28 >= 2, "the compilers of for-in and for-of")
     # ---- R13 string positions have units
     import strunits
     ck.rule("R13.string-units", "units check over string natives: no script number from a byte quantity (U-out), no byte-position API fed a character quantity (U-in), "
